@@ -98,7 +98,7 @@ def gen_tu(tu, tu_defs):
     if rc != 0:
         raise Inconclusive(f'clang failed on {tu}:\n' + out[-4000:])
     c = os.path.join(d, 'tu.c')
-    rc, out, _, _ = sh([ensure_tool(), ll, c, os.path.join(d, 'externs.txt'), os.path.join(d, 'api.h')], timeout=600)
+    rc, out, _, _ = sh([ensure_tool(), ll, c, os.path.join(d, 'externs.txt'), os.path.join(d, 'api.h')], timeout=600, env=dict(os.environ, LL2C_CUTS=os.path.join(TOOL, 'cuts.txt')))
     if rc != 0:
         raise Inconclusive(f'll2c failed on {tu}:\n' + out[-4000:])
     info = {'dir': d, 'll': ll, 'c': c, 'api': os.path.join(d, 'api.h'), 'gen_s': round(time.time() - t0, 2),
